@@ -224,7 +224,7 @@ class Ctx:
             dev = f[3] if len(f) > 3 else ""
             case = None
             if ev is not None and cases is not None and "cid" in ev:
-                case = cases[ev["cid"]]
+                case = cases[ev["cid"]] if 0 <= ev["cid"] < len(cases) else cases[0]
             if clause.startswith("DRIFT."):
                 self.drift.append((clause, ev, case))
             elif clause.startswith("EXT."):
